@@ -111,7 +111,7 @@ def main():
                 if rc != 0:
                     rec["result"] = "does-not-compile"
                 else:
-                    rc, out = sh("go test -vet=off -count=1 . ./pkg/...", cwd=WT, timeout=600)
+                    rc, out = sh("go test -vet=off -count=1 -timeout 90s . ./pkg/...", cwd=WT, timeout=200)
                     if rc != 0:
                         rec["result"] = "killed-by-repo-suite"
                     else:
